@@ -417,7 +417,8 @@ class HeaderSearchCriteria(SearchCriteria):
 
     def __init__(self, name: str, value: str, params: SearchParams) -> None:
         super().__init__(params)
-        self.name = name.encode('ascii')
+        # header names are ASCII, anything else can only fail to match
+        self.name = name.encode('utf-8', 'replace')
         self.value = value
 
     def matches(self, msg_seq: int, msg: MessageInterface,
